@@ -153,6 +153,23 @@ class Evaluator:
             facts = facts.union(Facts(self.domain))
         return facts
 
+    def new_iter(self, items):
+        """A one-shot iterator (generator, map object, iter(...)) over the given items: a heap cell holding what is left.
+        Whoever iterates it takes everything that is left; a second pass sees nothing."""
+        sid = len(self.heap) + 1
+        self.heap[sid] = (T.lst(list(items)), T.const(0))
+        return T.raw_op('ITER', T.const(sid))
+
+    def _consume(self, v):
+        """the items an iteration over `v` sees; for a one-shot iterator this exhausts it"""
+        if not T.is_op(v, 'ITER'):
+            return v
+        data, pos = self.heap[v[2][1]]
+        if not (T.tag(data) == 'list' and T.is_const(pos)):
+            return T.opaque('one-shot iterator in an undetermined state')
+        self.heap[v[2][1]] = (data, T.const(len(data[1])))
+        return T.lst(list(data[1][pos[1]:]))
+
     def new_stream(self, data, pos=None):
         sid = len(self.heap) + 1
         self.heap[sid] = (data, pos if pos is not None else T.const(0))
@@ -220,6 +237,39 @@ class Evaluator:
         # recursive function is followed three levels deep and is then unknown (UNDECIDED where it matters)
         if self._stack.count(key) >= (12 if key.endswith(('__repr__', '__str__')) else 3):
             return T.opaque('recursion in %s' % key), facts
+        # decorators defined in the package are applied (the wrapper is what callers get); classmethod / staticmethod /
+        # property are dispatch kinds, functools.wraps is metadata
+        decs = [d for d in fi.node.decorator_list
+                if ast.unparse(d.func if isinstance(d, ast.Call) else d) not in _PLAIN_DECORATORS
+                and not ast.unparse(d).endswith(('.setter', '.getter'))]
+        if decs:
+            if not hasattr(self, '_decorating'):
+                self._decorating, self._decorated = set(), {}
+            if fi.qual not in self._decorating:
+                frm = Frame(None, {}, facts, fi.module, fi.cls, depth)
+                self._decorating.add(fi.qual)
+                try:
+                    wrapped = self._decorated.get(fi.qual)
+                    if wrapped is None:
+                        wrapped = T.funcref(fi.qual)
+                        for d in reversed(decs):
+                            wrapped = self.apply(self.expr(d, frm), [wrapped], {}, frm, None)
+                        self._decorated[fi.qual] = wrapped
+                    if T.tag(wrapped) not in ('closure', 'func', 'bound'):
+                        return T.opaque('decorator of %s does not evaluate to a function: %s' % (key, T.show(wrapped, maxdepth=2))), facts
+                    self._param_mut = {}
+                    v = self.apply(wrapped, list(args), dict(kwargs), frm, None)
+                    pm = dict(getattr(self, '_param_mut', None) or {})
+                    # the wrapper's first parameter is the receiver: hand its in-place changes on under the method's own name
+                    if pm and T.tag(wrapped) == 'closure' and fi.params:
+                        e_ = self._closures[wrapped[1]][0]
+                        wn = [x.arg for x in e_.args.args]
+                        if wn and wn[0] in pm:
+                            self._param_mut = {fi.params[0]: pm[wn[0]]}
+                            self._param_mut_fi = fi
+                    return v, frm.facts
+                finally:
+                    self._decorating.discard(fi.qual)
         env = self._bind(fi, args, kwargs, facts, depth)
         if env is None:
             return T.raise_('TypeError'), facts
@@ -275,6 +325,27 @@ class Evaluator:
                 fr.mutated.add(arg.id)
             elif arg is not None:
                 self.effects.append(('argument-mutated', fr.fn.qual if fr.fn else None, node.lineno, ast.unparse(arg)))
+
+    def _write_back_closure(self, callee, node, fr):
+        pm = getattr(self, '_param_mut', None)
+        if node is None:
+            return          # an internal application (decorator): the caller of that reads the record itself
+        if not pm or getattr(self, '_param_mut_fi', None) is not callee or not isinstance(node, ast.Call):
+            self._param_mut = {}
+            return
+        self._param_mut = {}
+        e = self._closures[callee[1]][0]
+        names = [x.arg for x in e.args.args]
+        for q, val in pm.items():
+            i = names.index(q)
+            arg = node.args[i] if i < len(node.args) and not any(isinstance(a, ast.Starred) for a in node.args[:i + 1]) else None
+            if arg is None:
+                for kw in node.keywords:
+                    if kw.arg == q:
+                        arg = kw.value
+            if isinstance(arg, ast.Name) and arg.id in fr.env:
+                fr.env[arg.id] = val
+                fr.mutated.add(arg.id)
 
     def _construct(self, ci, args, kwargs, facts, depth):
         if ci.is_enum:
@@ -477,8 +548,13 @@ class Evaluator:
             return r
         if r is not FALL:
             v = _strip_raise(v)
+        self._pending_raise = None
         for t in st.targets:
             self.assign(t, v, fr)
+        pr, self._pending_raise = self._pending_raise, None
+        if pr is not None and r is FALL:
+            # a property setter that can raise: the statement raises on those alternatives
+            return self._maybe_raise(pr)
         return r
 
     def st_AnnAssign(self, st, fr):
@@ -495,6 +571,10 @@ class Evaluator:
         self.assign(st.target, v, fr)
         return self._maybe_raise(v)
 
+    def _property_setter(self, objterm, name):
+        ci = self.p.classes.get(objterm[1])
+        return ci.find_setter(name) if ci is not None else None
+
     def assign(self, target, v, fr):
         if isinstance(target, ast.Name):
             fr.env[target.id] = v
@@ -508,7 +588,21 @@ class Evaluator:
                     self.assign(e, T.getitem(v, T.const(i)), fr)
         elif isinstance(target, ast.Attribute):
             base = target.value
-            if isinstance(base, ast.Name) and base.id in fr.env and T.tag(fr.env[base.id]) == 'obj':
+            if isinstance(base, ast.Name) and base.id in fr.env and T.tag(fr.env[base.id]) == 'obj' \
+                    and self._property_setter(fr.env[base.id], target.attr) is not None:
+                # assignment to a property with a setter runs the setter on the object
+                setter = self._property_setter(fr.env[base.id], target.attr)
+                self._param_mut = {}
+                res, f2 = self._invoke(setter, [fr.env[base.id], v], {}, fr.facts, fr.depth + 1)
+                pm = self._param_mut if getattr(self, '_param_mut_fi', None) is setter else {}
+                self._param_mut = {}
+                fr.facts = f2
+                if setter.params and setter.params[0] in pm:
+                    fr.env[base.id] = pm[setter.params[0]]
+                    fr.mutated.add(base.id)
+                if _has_raise(res):
+                    self._pending_raise = res
+            elif isinstance(base, ast.Name) and base.id in fr.env and T.tag(fr.env[base.id]) == 'obj':
                 fr.env[base.id] = T.obj_set(fr.env[base.id], target.attr, v)
                 fr.mutated.add(base.id)
                 if not (fr.fn is not None and fr.fn.name == '__init__' and base.id == fr.fn.params[0]):
@@ -519,22 +613,47 @@ class Evaluator:
                                      ast.unparse(target)))
         elif isinstance(target, ast.Subscript):
             base = target.value
-            if isinstance(base, ast.Name) and base.id in fr.env and T.tag(fr.env[base.id]) == 'dict' \
-                    and not isinstance(target.slice, ast.Slice):
-                key = self.expr(target.slice, fr)
-                cur = fr.env[base.id]
-                if T.is_const(key) and all(T.is_const(k_) for k_, _ in cur[1]):
-                    pairs = [(k_, v_) for k_, v_ in cur[1] if k_ != key]
-                    if len(pairs) == len(cur[1]):
-                        pairs.append((key, v))
-                    else:
-                        pairs = [(k_, (v if k_ == key else v_)) for k_, v_ in cur[1]]
-                    fr.env[base.id] = T.dct(pairs)
-                    fr.mutated.add(base.id)
-                    return
+            # the mapping may be a local variable or a field of a local object (self.cache[key] = value)
+            holder = None
             if isinstance(base, ast.Name) and base.id in fr.env:
-                fr.env[base.id] = T.opaque('subscript store on %s' % base.id)
-                fr.mutated.add(base.id)
+                holder = ('name', base.id)
+                cur = fr.env[base.id]
+            elif isinstance(base, ast.Attribute) and isinstance(base.value, ast.Name) and base.value.id in fr.env \
+                    and T.tag(fr.env[base.value.id]) == 'obj' and base.attr in T.obj_fields(fr.env[base.value.id]):
+                holder = ('attr', base.value.id, base.attr)
+                cur = T.obj_fields(fr.env[base.value.id])[base.attr]
+            else:
+                cur = None
+
+            def put(newval):
+                if holder[0] == 'name':
+                    fr.env[holder[1]] = newval
+                    fr.mutated.add(holder[1])
+                else:
+                    fr.env[holder[1]] = T.obj_set(fr.env[holder[1]], holder[2], newval)
+                    fr.mutated.add(holder[1])
+                    self.effects.append(('subscript-store', fr.fn.qual if fr.fn else None, target.lineno, ast.unparse(target)))
+            if holder is not None and T.tag(cur) == 'dict' and not isinstance(target.slice, ast.Slice):
+                key = self.expr(target.slice, fr)
+                if T.tag(key) not in ('phi', 'raise', 'opaque'):
+                    if T.is_const(key) and all(T.is_const(k_) for k_, _ in cur[1]):
+                        pairs = [(k_, v_) for k_, v_ in cur[1] if k_ != key]
+                        if len(pairs) == len(cur[1]):
+                            pairs.append((key, v))
+                        else:
+                            pairs = [(k_, (v if k_ == key else v_)) for k_, v_ in cur[1]]
+                    else:
+                        # symbolic key: the newest binding is looked at first (it shadows an older equal key)
+                        pairs = [(key, v)] + [(k_, v_) for k_, v_ in cur[1] if k_ != key]
+                    if len(pairs) <= 32:
+                        put(T.dct(pairs))
+                        return
+            if holder is not None and holder[0] == 'name':
+                fr.env[holder[1]] = T.opaque('subscript store on %s' % holder[1])
+                fr.mutated.add(holder[1])
+            elif holder is not None:
+                put(T.opaque('subscript store on %s' % ast.unparse(base)))
+                return
             self.effects.append(('subscript-store', fr.fn.qual if fr.fn else None, target.lineno,
                                  ast.unparse(target)))
         elif isinstance(target, ast.Starred):
@@ -775,7 +894,7 @@ class Evaluator:
         return self.block(st.body, fr)
 
     def st_For(self, st, fr):
-        it = self.expr(st.iter, fr)
+        it = self._consume(self.expr(st.iter, fr))
         seq = _fixed_items(it)
         tname = st.target.id if isinstance(st.target, ast.Name) else None
         if seq is not None and len(seq) <= UNROLL_BOUND and not st.orelse:
@@ -967,7 +1086,23 @@ class Evaluator:
         return FALL
 
     def st_FunctionDef(self, st, fr):
-        fr.env[st.name] = T.opaque('nested function %s' % st.name)
+        a = st.args
+        if a.kwonlyargs or a.posonlyargs or _is_generator(st):
+            fr.env[st.name] = T.opaque('nested function %s (keyword-only parameters / generator)' % st.name)
+            return FALL
+        if not hasattr(self, '_closures'):
+            self._closures = {}
+        # one closure per evaluation of the `def` (a decorator applied five times creates five wrappers)
+        key = '%s:%d:%d#%d' % (fr.module.relpath if fr.module is not None else '?', st.lineno, st.col_offset, len(self._closures))
+        self._closures[key] = (st, fr.env, fr.module, fr.cls, fr.fn)        # the enclosing environment itself (late binding)
+        clo = ('closure', key)
+        for d in reversed(st.decorator_list):
+            txt = ast.unparse(d.func if isinstance(d, ast.Call) else d)
+            if txt in ('wraps', 'functools.wraps'):
+                continue                    # metadata only
+            dec = self.expr(d, fr)
+            clo = self.apply(dec, [clo], {}, fr, None)
+        fr.env[st.name] = clo
         return FALL
 
     def st_Delete(self, st, fr):
@@ -1403,35 +1538,66 @@ class Evaluator:
         a = e.args
         if a.vararg or a.kwarg or a.kwonlyargs or a.posonlyargs:
             return T.opaque('lambda with star / keyword-only parameters')
-        key = '%s:%d:%d' % (fr.module.relpath if fr.module is not None else '?', e.lineno, e.col_offset)
         if not hasattr(self, '_closures'):
             self._closures = {}
+        key = '%s:%d:%d' % (fr.module.relpath if fr.module is not None else '?', e.lineno, e.col_offset)
+        if key in self._closures and self._closures[key][1] != fr.env:
+            key = '%s#%d' % (key, len(self._closures))       # the same lambda expression evaluated in another environment
         self._closures[key] = (e, dict(fr.env), fr.module, fr.cls, fr.fn)
         return ('closure', key)
 
     def _apply_closure(self, callee, args, kwargs, fr):
         e, env0, module, cls, fn = self._closures[callee[1]]
-        names = [x.arg for x in e.args.args]
+        a = e.args
+        names = [x.arg for x in a.args]
         env = dict(env0)
-        if len(args) > len(names):
+        if len(args) > len(names) and a.vararg is None:
             return T.raise_('TypeError')
         for n, v in zip(names, args):
             env[n] = v
+        if a.vararg is not None:
+            extra = list(args[len(names):])
+            if any(isinstance(x, tuple) and x and x[0] == 'star' for x in extra):
+                return T.opaque('star-arguments with symbolic value')
+            env[a.vararg.arg] = T.tup(extra)
+        extra_kw = {}
         for k, v in kwargs.items():
-            if k not in names or k in names[:len(args)]:
+            if k in names and k not in names[:len(args)]:
+                env[k] = v
+            elif a.kwarg is not None and k not in names:
+                extra_kw[k] = v
+            else:
                 return T.raise_('TypeError')
-            env[k] = v
-        defaults = e.args.defaults
+        if a.kwarg is not None:
+            env[a.kwarg.arg] = T.dct([(T.const(k), v) for k, v in extra_kw.items()])
+        defaults = a.defaults
+        bound = set(names[:len(args)]) | set(kwargs)
         for n, d in zip(names[len(names) - len(defaults):], defaults):
-            if n not in env or (n not in names[:len(args)] and n not in kwargs):
+            if n not in bound:
                 f0 = Frame(fn, dict(env0), fr.facts, module, cls, fr.depth + 1)
                 env[n] = self.expr(d, f0)
-        if any(n not in env for n in names):
+                bound.add(n)
+        if any(n not in bound for n in names):
             return T.raise_('TypeError')
+        if fr.depth > MAX_DEPTH:
+            return T.opaque('inline depth exceeded in a nested function')
         f1 = Frame(fn, env, fr.facts, module, cls, fr.depth + 1)
-        v = self.expr(e.body, f1)
+        if isinstance(e, ast.Lambda):
+            v = self.expr(e.body, f1)
+            fr.facts = f1.facts
+            return v
+        res = self.block(e.body, f1)
+        # what the body did to variables of the enclosing function (rebinding needs nonlocal, mutation does not)
+        for k_, v_ in f1.env.items():
+            if k_ in env0 and k_ not in names and k_ in f1.mutated and env0.get(k_) is not v_:
+                env0[k_] = v_
+        # parameters mutated in place: visible to the caller like for any function
+        self._param_mut = {q: f1.env[q] for q in names if q in f1.mutated and q in f1.env}
+        self._param_mut_fi = callee
         fr.facts = f1.facts
-        return v
+        if res is FALL:
+            return T.NONE
+        return _strip_fall(res, T.NONE)
 
     def ex_Yield(self, e, fr):
         fr.yields.append(self.expr(e.value, fr) if e.value is not None else T.NONE)
@@ -1465,7 +1631,7 @@ class Evaluator:
                     out.append(self.expr(e.elt, fr))
                 return True
             g = e.generators[gi]
-            items = _fixed_items(self.expr(g.iter, fr))
+            items = _fixed_items(self._consume(self.expr(g.iter, fr)))
             if items is None or len(items) > UNROLL_BOUND:
                 return False
             for item in items:
@@ -1494,7 +1660,7 @@ class Evaluator:
         if len(e.generators) != 1:
             return self._comp_nested(e, fr, kind)
         g = e.generators[0]
-        it = self.expr(g.iter, fr)
+        it = self._consume(self.expr(g.iter, fr))
         items = _fixed_items(it)
         saved = dict(fr.env)
         entered = False
@@ -1598,6 +1764,12 @@ class Evaluator:
                     c, node_ = a
                     return self._class_attr(c, name, fr.depth)
             return T.raw_op('ATTR', base, T.const(name))
+        if k in ('func', 'bound') and name in ('__name__', '__qualname__'):
+            q = base[1] if k == 'func' else base[2]
+            return T.const(q.split('.')[-1])
+        if k == 'closure' and name == '__name__':
+            e_ = self._closures[base[1]][0]
+            return T.const(getattr(e_, 'name', '<lambda>'))
         if k == 'cls':
             ci = self.p.classes.get(base[1])
             if ci is None:
@@ -1809,7 +1981,10 @@ class Evaluator:
             fr.facts = fa.meet(fr.facts)
             return T.phi(callee[1], a, b)
         if k == 'closure':
-            return self._apply_closure(callee, args, kwargs, fr)
+            self._param_mut = {}
+            v = self._apply_closure(callee, args, kwargs, fr)
+            self._write_back_closure(callee, node, fr)
+            return v
         if k == 'func':
             fi = self.p.functions[callee[1]]
             self._param_mut = {}
@@ -1830,7 +2005,22 @@ class Evaluator:
             fr.facts = f2
             return v
         if k == 'ext':
+            short = callee[1].split('.')[-1]
+            if any(T.is_op(a, 'ITER') for a in args):
+                if short in _ITER_CONSUMERS:
+                    # eager model of the consumers (a lazy map/zip/filter takes its share when it is built: several
+                    # lazy consumers of one iterator then see it exhausted, where Python would interleave them -
+                    # either way not what the same call on a list gives)
+                    args = [self._consume(a) for a in args]
+                elif short == 'iter' and len(args) == 1:
+                    return args[0]
+                elif short in ('len', 'reversed'):
+                    return T.raise_('TypeError')
             return X.ext_call(self, callee[1], args, kwargs, fr, node)
+        if T.is_op(callee, 'WEAKREF') and not args and not kwargs:
+            # the referent while something else keeps it alive, else None - which of the two is not a function of the
+            # program's inputs (an environment condition, like the presence of an OpenSSL algorithm)
+            return T.phi(T.raw_op('BOOL', T.sym('ENV:referent of a weak reference is still alive', type='bool')), callee[2], T.NONE)
         if T.is_op(callee, 'NTCLS'):
             fields = callee[3]
             vals = {}
@@ -1972,6 +2162,14 @@ def absorb_ser_guards(t, _memo=None):
         r = (k, tuple(absorb_ser_guards(x, memo) for x in t[1]))
     memo[id(t)] = (t, r)
     return r
+
+
+_ITER_CONSUMERS = {'list', 'tuple', 'sorted', 'set', 'frozenset', 'dict', 'sum', 'min', 'max', 'any', 'all', 'enumerate', 'zip', 'map',
+                   'filter', 'bytes', 'bytearray', 'join'}
+
+_PLAIN_DECORATORS = {'classmethod', 'staticmethod', 'property', 'abstractmethod', 'abc.abstractmethod', 'overload',
+                     'typing.overload', 'wraps', 'functools.wraps', 'final', 'typing.final', 'override', 'typing.override',
+                     'lru_cache', 'functools.lru_cache', 'cache', 'functools.cache', 'cached_property', 'functools.cached_property'}
 
 
 def _is_dispatch(v):
